@@ -188,9 +188,11 @@ claim('C11',
       'PointSequence[i] = i*base; PointTable content for every split m>=1. '
       'On the constants regenerated from CURVE_FACTORY, by kernel evaluation for all nine named curves: p>3 odd, 4a^3+27b^2 != 0 mod p, G reduced, on the curve, != infinity, n*G = infinity with the model\'s own Multiply, h = 1; '
       'the ten binary-field CurveTypes map to None; with n prime the order of G is exactly n. '
+      'Primality of the field primes and group orders is PROVED by the kernel from Pratt/Lucas certificates (Proofs/Pratt.lean, Mathlib lucas_primality; certificates regenerated by harness/consts/pratt.py) '
+      'for all 18 numbers: on all nine curves the curve is elliptic over the field ZMod p and G has order exactly n with no hypothesis (Props/C11Primes.lean, C11.curve_primes_certified, C11.generator_order_certified). '
       'Kernel-checked counter-examples show the PINNED Add/Double/BatchDouble are not the group law on congruent-but-unequal coordinates and y = 0 mod p (defect D3). '
       'Model tied to /repo by differential correspondence: every operation exhaustively over the whole group of 5 toy curves (prime order 101..1009 and one of order 2q, cofactor 2) and on the nine named curves with edge operands, ~0.5M lines per run.',
-      'Hypotheses not proved: primality of p and n for the nine named curves (validated per run by gmpy2.is_prime(.,64)). '
+      'Primality of p and n is no longer a hypothesis for the nine named curves (kernel-checked Pratt certificates; evidence coverage.primality_kernel_certified lists them, coverage.primality_hypothesis_gmpy2_only is empty; the factoring search and its cache harness/consts/pratt_cache.json are untrusted hints). '
       'Jacobian theorems require z == 0 or z != 0 mod p (a triple with z = k*p, k != 0, is not recognised as infinity by AddJacobian; no library function produces one and JacobianToAffine raises on it). '
       'Model domain mod >= 1, n >= 1. The cache content after an exception inside BatchMultiplyG is not modelled (exception proved impossible on a valid curve). '
       'On the pinned tree the check prints KNOWN-FINDING lines for the D3 input classes (exit 0); with the patch applied there is no divergence.',
